@@ -1009,6 +1009,109 @@ theorem C07_attach_inv (is : List In) : Att (run {} is) := by
   | nil => intro s a; exact a
   | cons i is ih => intro s a; exact ih _ (Att.step i a)
 
+/-! ## each listed circuit carries its latest hop path -/
+
+/-- the hops a CIRC line names: up to the first argument that is not a `$…` name, each cut to `$` + 40 digits -/
+def hopsOf (parts : List Text) : List Text := (parts.takeWhile fun p => p.head? = some '$').map (·.take 41)
+
+theorem getC_path_notifyC (s : St) (o co : Nat) (quit : List Nat) (kind arg : Text) (flags : Kw) :
+    (getC (notifyC s o quit kind arg flags).1 co).path = (getC s co).path := by
+  unfold notifyC
+  simp only
+  rw [getC_setC]
+  split
+  · rename_i h; rw [h.1]
+  · rfl
+
+/-- `update_path` leaves the object with exactly the hops of the line, in order -/
+theorem updatePath_path (s : St) (o : Nat) (quit : List Nat) (parts : List Text) (ho : o < s.cobj.length) :
+    (getC (updatePath s o quit parts).1 o).path = hopsOf parts ∧ (updatePath s o quit parts).1.cobj.length = s.cobj.length := by
+  unfold updatePath hopsOf
+  generalize ((parts.takeWhile fun p => p.head? = some '$').map (·.take 41)) = hs
+  have h0 : (getC (setC s o { getC s o with path := [] }) o).path = [] ∧ (setC s o { getC s o with path := [] }).cobj.length = s.cobj.length := by
+    rw [getC_setC]; simp [ho, setC]
+  generalize (setC s o { getC s o with path := [] }) = s0 at h0
+  suffices ∀ (acc : St × List Out) (pre : List Text), (getC acc.1 o).path = pre → acc.1.cobj.length = s.cobj.length →
+      (getC (hs.foldl (fun (acc : St × List Out) h =>
+        let c := getC acc.1 o
+        let s1 := setC acc.1 o { c with path := c.path ++ [h] }
+        if c.path.length + 1 > (getC s o).path.length then
+          let r := notifyC s1 o quit (str "extend") h []
+          (r.1, acc.2 ++ r.2)
+        else (s1, acc.2)) acc).1 o).path = pre ++ hs ∧
+      (hs.foldl (fun (acc : St × List Out) h =>
+        let c := getC acc.1 o
+        let s1 := setC acc.1 o { c with path := c.path ++ [h] }
+        if c.path.length + 1 > (getC s o).path.length then
+          let r := notifyC s1 o quit (str "extend") h []
+          (r.1, acc.2 ++ r.2)
+        else (s1, acc.2)) acc).1.cobj.length = s.cobj.length by
+    have := this (s0, []) [] h0.1 h0.2
+    simpa using this
+  induction hs with
+  | nil => intro acc pre hp hl; exact ⟨by simpa using hp, hl⟩
+  | cons h hs ih =>
+    intro acc pre hp hl
+    rw [List.foldl_cons]
+    have hin : o < acc.1.cobj.length := by rw [hl]; exact ho
+    have h1 : (getC (setC acc.1 o { getC acc.1 o with path := (getC acc.1 o).path ++ [h] }) o).path = pre ++ [h] := by
+      rw [getC_setC]; simp [hin, hp]
+    have hl1 : (setC acc.1 o { getC acc.1 o with path := (getC acc.1 o).path ++ [h] }).cobj.length = s.cobj.length := by
+      simp [setC, hl]
+    have := ih
+    simp only
+    split
+    · have hn := getC_path_notifyC (setC acc.1 o { getC acc.1 o with path := (getC acc.1 o).path ++ [h] }) o o quit (str "extend") h []
+      have hnl := (notifyC_frame (setC acc.1 o { getC acc.1 o with path := (getC acc.1 o).path ++ [h] }) o quit (str "extend") h []).clen
+      have r := ih ((notifyC (setC acc.1 o { getC acc.1 o with path := (getC acc.1 o).path ++ [h] }) o quit (str "extend") h []).1,
+        acc.2 ++ (notifyC (setC acc.1 o { getC acc.1 o with path := (getC acc.1 o).path ++ [h] }) o quit (str "extend") h []).2) (pre ++ [h])
+        (by rw [hn, h1]) (by rw [hnl, hl1])
+      simpa [List.append_assoc] using r
+    · have r := ih (setC acc.1 o { getC acc.1 o with path := (getC acc.1 o).path ++ [h] }, acc.2) (pre ++ [h]) h1 hl1
+      simpa [List.append_assoc] using r
+
+/-- **C07, latest path.** After a CIRC line: LAUNCHED empties the path; any other live status with a third word
+takes exactly the hops that word names, in order (none when it names none); CLOSED / FAILED keep the last path. -/
+theorem C07_circuit_path (s : St) (o cid : Nat) (args : List Text) (quit : List Nat) (ho : o < s.cobj.length) :
+    (getC (circPath s o cid args quit).1 o).path =
+      if args.getD 1 [] = str "LAUNCHED" then []
+      else if !isTerminalC (args.getD 1 []) && decide (args.length > 2) then hopsOf (TxV.Split.splitOn ',' (args.getD 2 []))
+      else (getC s o).path := by
+  unfold circPath
+  simp only
+  split
+  · rw [getC_path_notifyC]
+    show (getC (setC s o { getC s o with path := [] }) o).path = []
+    rw [getC_setC]; simp [ho]
+  · split
+    · exact (updatePath_path s o quit _ ho).1
+    · rfl
+
+/-- finishing the update (BUILT / CLOSED / FAILED bookkeeping) never touches a path -/
+theorem circFinish_path (s : St) (o cid co : Nat) (args : List Text) (quit : List Nat) :
+    (getC (circFinish s o cid args quit).1 co).path = (getC s co).path := by
+  unfold circFinish
+  simp only
+  have setp : ∀ (t : St) (c : Circ), c.path = (getC t o).path → (getC (setC t o c) co).path = (getC t co).path := by
+    intro t c hc
+    rw [getC_setC]
+    split
+    · rename_i h; rw [h.1, hc]
+    · rfl
+  split
+  · refine (setp _ _ ?_).trans (getC_path_notifyC s o co quit _ _ _)
+    rfl
+  · split
+    · rw [getC_path_notifyC]
+      show (getC (setC (circClosing s o).1 o _) co).path = _
+      refine (setp _ _ ?_).trans ?_
+      · rfl
+      · unfold circClosing
+        simp only
+        refine (setp _ _ ?_)
+        rfl
+    · rfl
+
 /-! ## the hypotheses are met, and the theorems say something -/
 
 def R1 : Text := '$' :: List.replicate 40 'A'
